@@ -216,6 +216,22 @@ fn build_cases(tier: Tier) -> Vec<(String, Vec<Case>)> {
             }
         }
     }
+    // degenerate but well-formed npy shapes, among them the 0-dimensional `()` numpy writes for a
+    // saved scalar, with one value too few, the right number, and one too many: every statistic and option
+    for shape in [vec![], vec![1usize], vec![1, 1], vec![1, 1, 1], vec![2], vec![1, 2], vec![3]] {
+        let n: usize = shape.iter().product();
+        for extra in [-1i64, 0, 1] {
+            let count = (n as i64 + extra).max(0) as usize;
+            let data: Vec<u8> = (0..count).flat_map(|i| (i as f64 + 1.0).to_le_bytes()).collect();
+            let bytes = Arc::new(synth(1, &dict_text("<f8", false, &shape, &np), &data));
+            for st in ALL_STATS {
+                g.push(case(&["stat", "-s", st], &bytes, "degenerate-npy-shape", format!("stat -s {st} on npy shape {shape:?} with {count} values")));
+            }
+            for argv in [vec!["view"], vec!["fold"], vec!["view", "--mask-monomorphic", "--normalize"], vec!["view", "-p", "0"], vec!["view", "-m", "0"], vec!["view", "-O", "npy"]] {
+                g.push(case(&argv, &bytes, "degenerate-npy-shape", format!("{} on npy shape {shape:?} with {count} values", argv.join(" "))));
+            }
+        }
+    }
     // absurd header length fields
     for hl in [0xffffu32, 0xffff_ffff, 0x7fff_ffff] {
         let mut bytes = b"\x93NUMPY\x02\x00".to_vec();
@@ -225,6 +241,27 @@ fn build_cases(tier: Tier) -> Vec<(String, Vec<Case>)> {
         g.push(case(&["view"], &bytes, "absurd-npy-header-length", format!("view on npy v2 declaring header length {hl}")));
     }
     groups.push(("(iv) absurd declared shapes".into(), g));
+
+    // (iv-b) failing sinks: every subcommand and output option with stdout on a full device and on a
+    // pipe whose reader is gone - the write error must be a diagnosed error, not a panic
+    let mut g = Vec::new();
+    let sp_small = spectrum_text(&[3, 3]);
+    let sp_1d = spectrum_text(&[6]);
+    for sink in ["sink=full", "sink=closed-pipe"] {
+        for argv in [
+            vec!["view"], vec!["view", "-O", "npy"], vec!["view", "--precision", "12"], vec!["fold"], vec!["fold", "--fill", "zero"],
+            vec!["stat", "-s", "sum"], vec!["stat", "-s", "sum,f2", "--header"], vec!["stat", "-s", "king,r0,r1", "-H", "--delimiter", ";"],
+        ] {
+            g.push(case(&argv, &sp_small, sink, format!("{} with stdout on {sink}", argv.join(" "))));
+        }
+        for argv in [vec!["stat", "-s", "pi,theta,d-tajima,d-fu-li,s", "--header"], vec!["view", "-p", "2"]] {
+            g.push(case(&argv, &sp_1d, sink, format!("{} with stdout on {sink}", argv.join(" "))));
+        }
+        for argv in [vec!["create"], vec!["create", "-p", "1"], vec!["create", "-vv"]] {
+            g.push(case(&argv, &vcf, sink, format!("{} with stdout on {sink}", argv.join(" "))));
+        }
+    }
+    groups.push(("(iv-b) failing sinks".into(), g));
 
     // (v) contradictory sample lists
     let mut g = Vec::new();
@@ -337,12 +374,19 @@ fn case_j(c: &Case, o: &Out) -> J {
 
 fn run_case(c: &Case, scratch: &Scratch) -> Out {
     let a: Vec<&str> = c.argv.iter().map(|s| s.as_str()).collect();
+    // cases of the failing-sink group carry the sink in their class
+    if c.class.starts_with("sink=full") {
+        return crate::cli::run_sfs_stdout_to(&a, &c.stdin, std::path::Path::new("/dev/full"), scratch);
+    }
+    if c.class.starts_with("sink=closed-pipe") {
+        return crate::cli::run_sfs_stdout_closed_pipe(&a, &c.stdin, scratch);
+    }
     run_sfs_env(&a, Stdin::Bytes(&c.stdin), scratch, &[], &Limits { wall_s: 60, mem_bytes: 16 << 30 })
 }
 
 pub fn run(tier: Tier) -> i32 {
     let mut rep = Report::new("C17", tier, "exploration");
-    rep.rule = "invocations of the real binary, all enumerated: (i) 14 statistics x every shape with 1..4 axes and lengths 1..4 (+ zero-length-axis shapes); (ii) 13 view/fold option sets x the same shapes; (iii) option values at and beyond bounds (precision, projection, marginalization axes, threads, delimiter); (iv) absurd declared shapes / header lengths in text and npy; (v) every sample list of <=3 entries over 2 samples x {unlabelled, A, B} with repetition, and odd spellings; (vi) every prefix of length 0..12 of a text/npy/vcf/vcf.gz/bcf/raw-bcf file to each subcommand; (vii) the single-fault neighbourhood (every bit flip, byte deletion, truncation, huge-number substitution) of one valid text and npy file (thorough: also vcf, vcf.gz, bcf, raw bcf completely; quick samples every 5th byte of vcf and raw bcf). Oracle: exit 0, or non-zero exit with a diagnostic; never exit 101 / 'panicked at' / a signal / a timeout. Non-trivial = an input that is not a plain valid file with default options (all but the sanity rows).".into();
+    rep.rule = "invocations of the real binary, all enumerated: (i) 14 statistics x every shape with 1..4 axes and lengths 1..4 (+ zero-length-axis shapes); (ii) 13 view/fold option sets x the same shapes; (iii) option values at and beyond bounds (precision, projection, marginalization axes, threads, delimiter); (iv) absurd declared shapes / header lengths in text and npy, degenerate npy shapes incl. the 0-dimensional (), and every subcommand with stdout on /dev/full and on a closed pipe; (v) every sample list of <=3 entries over 2 samples x {unlabelled, A, B} with repetition, and odd spellings; (vi) every prefix of length 0..12 of a text/npy/vcf/vcf.gz/bcf/raw-bcf file to each subcommand; (vii) the single-fault neighbourhood (every bit flip, byte deletion, truncation, huge-number substitution) of one valid text and npy file (thorough: also vcf, vcf.gz, bcf, raw bcf completely; quick samples every 5th byte of vcf and raw bcf). Oracle: exit 0, or non-zero exit with a diagnostic; never exit 101 / 'panicked at' / a signal / a timeout. Non-trivial = an input that is not a plain valid file with default options (all but the sanity rows).".into();
     let scratch = Scratch::new("c17");
     let groups = build_cases(tier);
     let mut total_incon = 0u64;
